@@ -134,40 +134,59 @@ func propC19(c c19Case, o *Obs) error {
 		o.Rejected()
 		return nil
 	}
-	var tab reftable.Table
-	switch c.View {
-	case 0:
-		tab, err = reftable.NewReader(&reftable.ByteBlockSource{Source: bs.Data[0]}, "t")
-	case 1:
-		d := ScratchDir()
-		defer os.RemoveAll(d)
-		fn := filepath.Join(d, "t.ref")
-		os.WriteFile(fn, bs.Data[0], 0644)
-		var src reftable.BlockSource
-		src, err = reftable.NewFileBlockSource(fn)
-		if err == nil {
-			var rd *reftable.Reader
-			rd, err = reftable.NewReader(src, "t")
-			if err == nil {
-				defer rd.Close()
-				tab = rd
+	o.ClassIf(bs.LongLogStreams > 0, "log-stream-longer-than-block")
+	// The view is opened twice: the sequential reference results come from one instance, the
+	// concurrent phase runs on a second, untouched one - a first pass over the same instance
+	// would warm every lazily initialised or "learned" field and hide races on them.
+	var cleanup []func()
+	defer func() {
+		for _, f := range cleanup {
+			f()
+		}
+	}()
+	var stackDir string
+	openView := func() (reftable.Table, error) {
+		switch c.View {
+		case 0:
+			return reftable.NewReader(&reftable.ByteBlockSource{Source: bs.Data[0]}, "t")
+		case 1:
+			d := ScratchDir()
+			cleanup = append(cleanup, func() { os.RemoveAll(d) })
+			fn := filepath.Join(d, "t.ref")
+			os.WriteFile(fn, bs.Data[0], 0644)
+			src, err := reftable.NewFileBlockSource(fn)
+			if err != nil {
+				return nil, err
 			}
+			rd, err := reftable.NewReader(src, "t")
+			if err != nil {
+				return nil, err
+			}
+			cleanup = append(cleanup, func() { rd.Close() })
+			return rd, nil
+		case 2:
+			tabs, err := bs.Readers()
+			if err != nil {
+				return nil, err
+			}
+			return reftable.NewMerged(tabs, bs.HashID)
 		}
-	case 2:
-		var tabs []reftable.Table
-		tabs, err = bs.Readers()
-		if err == nil {
-			tab, err = reftable.NewMerged(tabs, bs.HashID)
+		if stackDir == "" {
+			stackDir = bs.WriteDir()
+			d := stackDir
+			cleanup = append(cleanup, func() { os.RemoveAll(d) })
 		}
-	case 3:
-		d := bs.WriteDir()
-		defer os.RemoveAll(d)
-		var st *reftable.Stack
-		st, err = reftable.NewStack(d, reftable.Config{HashID: bs.HashID})
-		if err == nil {
-			defer st.Close()
-			tab = st.Merged()
+		st, err := reftable.NewStack(stackDir, reftable.Config{HashID: bs.HashID})
+		if err != nil {
+			return nil, err
 		}
+		cleanup = append([]func(){func() { st.Close() }}, cleanup...)
+		return st.Merged(), nil
+	}
+	ref, err := openView()
+	var tab reftable.Table
+	if err == nil {
+		tab, err = openView()
 	}
 	if err != nil {
 		return Failf("C19/open", "view %d: %v", c.View, err)
@@ -175,7 +194,7 @@ func propC19(c c19Case, o *Obs) error {
 	// sequential reference results
 	want := make([]string, len(c.Ops))
 	for i, op := range c.Ops {
-		want[i] = runReadOp(tab, op)
+		want[i] = runReadOp(ref, op)
 	}
 	// concurrent
 	var wg sync.WaitGroup
